@@ -231,5 +231,7 @@ def multiply_by_quantized_multiplier(x, scale, shift):
     shift = 31 - shift
     left_shift = shift if shift > 0 else 0
     right_shift = -shift if shift < 0 else 0
-    mul = saturating_rounding_mul32(x * (1 << left_shift), scale)
+    # Saturate the left shifted value, it does not fit in 32 bits when both x and the scale (2^left_shift) are large
+    x_shifted = min(max(x * (1 << left_shift), np.iinfo(np.int32).min), np.iinfo(np.int32).max)
+    mul = saturating_rounding_mul32(x_shifted, scale)
     return rounding_divide_by_pot(mul, right_shift)
